@@ -53,3 +53,21 @@ claim("C04",
       "multiplicity over all source families are not decided.",
       "Trusts loop bound 1 (2 in thorough) for the two nested loops, that user callbacks only write through their arguments, and the "
       "role recognition of heap operands by index expression ((pos-1)>>1, 2*pos+1, +1).")
+
+claim("C03",
+      "typestate coupling rule for the cached block offset (conditional on the reuse decision), abstract path evaluation of seek/next flag handling and of needs_index_seek against its decision table, accept sets of in-block seek sites",
+      "Decides: wherever a freshly loaded block is stored into a reader iterator the cached offset is stored from the offset that selected it "
+      "(directly or through a verified out-parameter), so the reuse shortcut of reader_iter_seek can never see a stale identity; seek past the "
+      "end only marks the iterator invalid, failure is sticky, next advances iff not first; needs_index_seek equals its six-disjunct table; the "
+      "continue-from-current shortcut of block_iter_seek is taken only for sign(current,target)=LT inside the located run. The contract over "
+      "all (position,target) histories is not decided.",
+      "Trusts T-cmp rows 2,3,8,10; out-parameter coupling is verified inside the callee by path evaluation; loop bound 1.")
+
+claim("C02",
+      "abstract path evaluation (decision tables) of reader_iter_next's per-kind predicate and of bytes_compare, constructor argument-identity table, accept sets of in-block search sites, type rule on char comparisons with a kept positive example",
+      "Decides: GET returns iff sign(key,bound)=EQ, RANGE iff sign in {LT,EQ}, PREFIX iff len(bound)<=len(key) and the first len(bound) bytes are equal, "
+      "ITER never ends early, the switch covers every kind; each lookup constructor positions with and bounds by the right parameters; bytes_compare's "
+      "nine-case table (memcmp sign, else length relation; min length; operand order); no relational operator on plain/signed char bytes anywhere in the "
+      "library; bisection/linear-scan accept sets; separator computed iff a block is cut, right before the flush. That index search plus block search "
+      "land on the right entry for every table/query, and the separator arithmetic, are not decided.",
+      "Trusts memcmp's unsigned-byte semantics, T-cmp rows 4-7,9,11,22, and that lookups reach the reader only through the constructor table.")
